@@ -472,3 +472,77 @@ func init() {
 			return obs
 		}})
 }
+
+func init() {
+	register(&Rule{ID: "ARRAY.dims-owned", Floor: 1,
+		Doc: "every array value owns its dimension list: wherever an LVal of type LArray is built (composite literal), the first cell is X.Copy() or a list built on the spot — never a caller's list stored as it is.  append! updates the length cell of that list in place (the `array internals` exemption of the write-discipline rules relies on this), so two vectors sharing one dimension list would change each other's length",
+		Run: func(c *Ctx) []Obligation {
+			lvalT := c.LookupType("lisp.LVal")
+			larray := c.LookupConst("lisp.LArray")
+			copyM := c.LookupMethod("lisp.LVal.Copy")
+			if lvalT == nil || larray == nil || copyM == nil {
+				return []Obligation{anchorMissing("ARRAY.dims-owned", "lisp.LVal / LArray / LVal.Copy")}
+			}
+			var obs []Obligation
+			for _, u := range c.Funcs(isKernel) {
+				info := u.Pkg.TypesInfo
+				ord := &ordinal{}
+				ast.Inspect(u.Decl.Body, func(n ast.Node) bool {
+					cl, ok := n.(*ast.CompositeLit)
+					if !ok {
+						return true
+					}
+					tv, ok := info.Types[cl]
+					if !ok || types.Unalias(tv.Type) != types.Type(lvalT) {
+						return true
+					}
+					isArr := false
+					var cells *ast.CompositeLit
+					for _, el := range cl.Elts {
+						kv, ok := el.(*ast.KeyValueExpr)
+						if !ok {
+							continue
+						}
+						id, _ := kv.Key.(*ast.Ident)
+						if id == nil {
+							continue
+						}
+						if id.Name == "Type" && identObjOrSel(info, kv.Value) == larray {
+							isArr = true
+						}
+						if id.Name == "Cells" {
+							cells, _ = ast.Unparen(kv.Value).(*ast.CompositeLit)
+						}
+					}
+					if !isArr {
+						return true
+					}
+					construct := ord.next("LArray literal")
+					if cells == nil || len(cells.Elts) == 0 {
+						obs = append(obs, mkOb(c, "ARRAY.dims-owned", u, construct, cl, Undecided, "an LArray is built without a literal cell list: cannot see where its dimension list comes from", true))
+						return true
+					}
+					d := ast.Unparen(cells.Elts[0])
+					if ce, ok := d.(*ast.CallExpr); ok {
+						fn := originOf(Callee(info, ce))
+						if fn == copyM {
+							obs = append(obs, mkOb(c, "ARRAY.dims-owned", u, construct, cl, Proved, "dimension list is `"+types.ExprString(d)+"`, a copy", true))
+							return true
+						}
+						if fn != nil && (fn.Name() == "QExpr" || fn.Name() == "SExpr") {
+							// built on the spot: its argument must be a slice literal
+							if len(ce.Args) == 1 {
+								if _, ok := ast.Unparen(ce.Args[0]).(*ast.CompositeLit); ok {
+									obs = append(obs, mkOb(c, "ARRAY.dims-owned", u, construct, cl, Proved, "dimension list is built on the spot", true))
+									return true
+								}
+							}
+						}
+					}
+					obs = append(obs, mkOb(c, "ARRAY.dims-owned", u, construct, cl, Violated, "the array stores `"+types.ExprString(d)+"` as its dimension list without copying it: a caller that passes another vector's list makes the two vectors share their length cell, and append! on one changes the other's length", true))
+					return true
+				})
+			}
+			return obs
+		}})
+}
